@@ -70,6 +70,7 @@ type Response struct {
 	Sample     any            `json:"sample,omitempty"`
 	Hashes     []string       `json:"hashes,omitempty"` // per-run history hashes (determinism self-test)
 	Notes      []string       `json:"notes,omitempty"`
+	Digests    [][]string     `json:"digests,omitempty"` // C18: per client, per call, hash of the result digest
 }
 
 func (r *Response) stat(k string, n int) {
@@ -126,6 +127,8 @@ func Handle(req *Request) (resp *Response) {
 		campaignC05(p, req, resp)
 	case "c18":
 		campaignC18(p, req, resp)
+	case "c18solo":
+		campaignC18Solo(p, req, resp)
 	default:
 		resp.Error = "unknown kind " + req.Kind
 	}
